@@ -499,11 +499,8 @@ fn pump(rx: &mut Option<UnboundedReceiverStream<ToPeerEvent>>, q: &mut VecDeque<
             ToPeerEvent::NlriChange(u) => batch.push(Ev::Change(u)),
             ToPeerEvent::SoftResetOut => batch.push(Ev::SoftReset),
             ToPeerEvent::RouteRefreshFamilies(f) => batch.push(Ev::Refresh(f)),
-            // (b-gr) ToPeerEvent::DeferralEnded — sent by end_deferral_families only; this harness never
-            // starts a deferral.  A wildcard so that the file builds against trees with and without the
-            // variant (seeded worktrees at an older HEAD); make it the explicit arm once it is committed.
-            #[allow(unreachable_patterns)]
-            _ => {}
+            // sent by end_deferral_families only; this harness never starts a deferral
+            ToPeerEvent::DeferralEnded(_) => {}
         }
     }
     if sort {
